@@ -28,6 +28,10 @@ func TestMain(m *testing.M) { h.Main(m, "C18") }
 type Case struct {
 	Srcs map[string]string `json:"srcs"` // file name -> source (1 file for the graph check, 1-3 for NewPackage)
 	From string            `json:"from,omitempty"`
+	// Resolved: before decoration the file's identifier resolution is completed with
+	// go/ast.NewPackage, an importer and a universe scope: package names then carry Pkg objects whose
+	// Data is the imported package's scope, predeclared names carry off-tree universe objects.
+	Resolved bool `json:"resolved,omitempty"`
 }
 
 // ---- canonical signature of an identifier-resolution graph (generic over ast / dst by reflection) ----
@@ -175,6 +179,12 @@ func checkGraph(sub string) func(t h.TB, c Case) {
 			af, err := parser.ParseFile(fset, name, src, parser.ParseComments)
 			if err != nil {
 				t.Fatalf("harness: %v", err)
+			}
+			if c.Resolved {
+				imports := map[string]*ast.Object{}
+				ast.NewPackage(fset, map[string]*ast.File{name: af}, func(m map[string]*ast.Object, path string) (*ast.Object, error) {
+					return astImporter(imports, path)
+				}, astUniverse())
 			}
 			want := astSig(af)
 			dec := decorator.NewDecorator(fset)
@@ -516,9 +526,12 @@ func genGraph(sub string) func(t *rapid.T) (Case, bool) {
 			}
 			return true
 		})
-		c := Case{Srcs: map[string]string{"a.go": string(src)}, From: from}
+		c := Case{Srcs: map[string]string{"a.go": string(src)}, From: from, Resolved: rapid.IntRange(0, 2).Draw(t, "resolved") == 0}
+		if c.Resolved {
+			h.Label("graph:resolved-with-importer")
+		}
 		if cyc && synth {
-			h.NonTrivial(sub, c.Srcs["a.go"])
+			h.NonTrivial(sub, c.Srcs["a.go"], fmt.Sprint(c.Resolved))
 		}
 		h.Sample(sub, map[string]any{"from": from, "src": h.Trunc(string(src), 300)})
 		return c, true
